@@ -1,27 +1,40 @@
-"""python -m pyvc.witness contracts.Cxx : evaluates every contract's witnesses on the real code."""
+"""python -m pyvc.witness contracts.Cxx [seed] [tier] : evaluates every contract's witnesses and
+seeded samples (the executable twin of the contract) on the real code."""
 import importlib
 import json
 import sys
 import traceback
+import random
 from .replay import setup_path, run_case, verdict
 
 
 def main():
     setup_path()
     M = importlib.import_module(sys.argv[1])
+    seed = int(sys.argv[2]) if len(sys.argv) > 2 else 0
+    tier = sys.argv[3] if len(sys.argv) > 3 else "quick"
     for c in M.CONTRACTS:
-        for k, w in enumerate(c.witness):
+        cases = list(c.witness)
+        sampler = c.options.get("samples")
+        if sampler is not None:
+            try:
+                import numpy as np
+                rng = np.random.default_rng(seed + 12345)
+                cases += [(lambda w=w: w) for w in sampler(rng, tier)]
+            except Exception:
+                print("WITNESS " + json.dumps({"target": c.target, "index": -1, "verdict": "error", "res": traceback.format_exc()[-1500:]}))
+        for k, w in enumerate(cases):
             try:
                 inst, kwargs = w() if callable(w) else w
                 inputs = dict(kwargs)
                 inputs["__native__"] = True
                 res = run_case(c, inputs, inst)
                 v = verdict(res)
-                rec = {"target": c.target, "index": k, "instance": inst, "verdict": v, "res": res,
-                       "inputs_repr": repr(kwargs)[:600]}
+                rec = {"target": c.target, "label": c.short, "index": k, "instance": inst, "verdict": v,
+                       "res": res if v != "holds" else None, "inputs_repr": repr(kwargs)[:800]}
             except Exception as e:
-                rec = {"target": c.target, "index": k, "verdict": "error", "res": traceback.format_exc()[-1500:]}
-            print("WITNESS " + json.dumps(rec, default=str))
+                rec = {"target": c.target, "label": c.short, "index": k, "verdict": "error", "res": traceback.format_exc()[-1500:]}
+            print("WITNESS " + json.dumps(rec, default=str), flush=True)
 
 
 if __name__ == "__main__":
